@@ -136,6 +136,9 @@ func MkICMP6(src, dst netip.Addr, typ, code byte, body []byte) []byte {
 
 // RecConn is a net.PacketConn that records every frame written to it.
 type RecConn struct {
+	// Fail, when set, is consulted at the start of every WriteTo (under no lock of the connection): a non-nil
+	// result makes the write fail with that error and nothing is recorded (fault injection: ENOBUFS, EAGAIN, ...).
+	Fail   func(b []byte) error
 	mu     sync.Mutex
 	frames [][]byte
 	times  []time.Time
@@ -146,6 +149,11 @@ type RecConn struct {
 func NewRecConn() *RecConn { return &RecConn{closed: make(chan struct{})} }
 
 func (c *RecConn) WriteTo(b []byte, _ net.Addr) (int, error) {
+	if f := c.Fail; f != nil {
+		if err := f(b); err != nil {
+			return 0, err
+		}
+	}
 	c.mu.Lock()
 	c.frames = append(c.frames, append([]byte{}, b...))
 	c.times = append(c.times, time.Now())
